@@ -31,3 +31,18 @@ pub fn oklab_to_linear_srgb<N: Num>(lab: [N; 3]) -> [N; 3] {
     let l = mul(&LAB_LMS, lab);
     mul(&LMS_RGB, [l[0] * l[0] * l[0], l[1] * l[1] * l[1], l[2] * l[2] * l[2]])
 }
+
+fn inv3(m: &[f64; 9]) -> [f64; 9] {
+    let det = m[0] * (m[4] * m[8] - m[5] * m[7]) - m[1] * (m[3] * m[8] - m[5] * m[6]) + m[2] * (m[3] * m[7] - m[4] * m[6]);
+    [
+        (m[4] * m[8] - m[5] * m[7]) / det, (m[2] * m[7] - m[1] * m[8]) / det, (m[1] * m[5] - m[2] * m[4]) / det,
+        (m[5] * m[6] - m[3] * m[8]) / det, (m[0] * m[8] - m[2] * m[6]) / det, (m[2] * m[3] - m[0] * m[5]) / det,
+        (m[3] * m[7] - m[4] * m[6]) / det, (m[1] * m[6] - m[0] * m[7]) / det, (m[0] * m[4] - m[1] * m[3]) / det,
+    ]
+}
+/// Oklab -> XYZ (D65) by the definition: l'm's' = M2^-1 Lab, cube, XYZ = M1^-1 lms (inverses of the published matrices,
+/// computed here in f64)
+pub fn oklab_to_xyz<N: Num>(lab: [N; 3]) -> [N; 3] {
+    let l = mul(&inv3(&M2), lab);
+    mul(&inv3(&M1), [l[0] * l[0] * l[0], l[1] * l[1] * l[1], l[2] * l[2] * l[2]])
+}
